@@ -206,6 +206,21 @@ fn case<const D: usize>(ctx: &Ctx, out: &mut Out, cs: u64) {
                         out.violation(P, "accounting/skipped", format!("{}: inserted {} + skipped {} != inputs after dedup {}", ctor, st.inserted, st.total_skipped(), e), rp);
                     }
                 }
+                if let (true, DedupPolicy::Epsilon { tolerance: t }) = (uses_opts, opts.dedup) {
+                    // Epsilon policy: an input that is farther than the tolerance from every other input
+                    // cannot be dropped by the policy, so it is either a vertex of the result or one of the
+                    // skipped insertions (sufficient test per pair: some axis differs by more than 1.001 t).
+                    let present: std::collections::HashSet<uuid::Uuid> = m.verts.iter().map(|v| v.uuid).collect();
+                    let isolated = |i: usize| inp.iter().enumerate().all(|(j, o)| j == i || (0..D).any(|a| (inp[i].p[a] - o.p[a]).abs() > 1.001 * t));
+                    let missing_isolated: Vec<usize> = (0..inp.len()).filter(|&i| !present.contains(&inp[i].uuid) && isolated(i)).collect();
+                    out.add("accounting/epsilon/isolated_inputs_missing_from_result", missing_isolated.len() as u64);
+                    if missing_isolated.len() > st.total_skipped() {
+                        let mut rp = replay.clone();
+                        rp["constructor"] = json!(ctor);
+                        let i = missing_isolated[0];
+                        out.violation(P, "accounting/epsilon-lost-vertex", format!("{}: {} inputs that are farther than the tolerance {:e} from every other input are missing from the result (e.g. {:?}) but only {} insertions are reported as skipped", ctor, missing_isolated.len(), t, inp[i].p, st.total_skipped()), rp);
+                    }
+                }
                 if st.total_skipped() > 0 {
                     out.count("with_skipped_vertices");
                 }
